@@ -275,11 +275,11 @@ func ClaimsDomain() *Domain {
 // is applied. Pod populations over ordinals 0..2 include the fully rolled out healthy set.
 //
 //	dims: strategy shape(9), rollingUpdate shape(6), policy(4), selector(4), slots annotation(6), status shape(5), nclaims(2),
-//	      defaulting(2), replicas(0..2), 3 pods x (absent, healthy@upd, healthy@old, pending@upd, failed@upd)
+//	      defaulting(2), replicas(0..2), 3 pods x (absent, healthy@upd, healthy@old, pending@upd, failed@upd, healthy without labels)
 var admStrategyTypes = []interface{}{nil, "", "RollingUpdate", "OnDelete", "Junk"}
 
 func AdmittedDomain() *Domain {
-	dims := []int{6, 6, 4, 4, 6, 5, 2, 2, 3, 5, 5, 5, 3}
+	dims := []int{6, 6, 4, 4, 6, 5, 2, 2, 3, 6, 6, 6, 3}
 	d := &Domain{Name: "admitted(CRD lattice x 3 ordinals + a pod at the largest ordinal)", Dims: dims}
 	d.Make = func(ix []int) *Scenario {
 		sc := &Scenario{Dom: ix}
@@ -300,6 +300,8 @@ func AdmittedDomain() *Domain {
 				sc.Pods = append(sc.Pods, PodSpec{Ord: o, Phase: "Pending", Rev: "t2.0", Owner: "self"})
 			case 4:
 				sc.Pods = append(sc.Pods, PodSpec{Ord: o, Phase: "Failed", Rev: "t2.0", Owner: "self"})
+			case 5: // an owned, running pod without any label (a member under a selector that admits label-less pods)
+				sc.Pods = append(sc.Pods, PodSpec{Ord: o, Phase: "Running", Ready: true, Rev: "", Owner: "self", NoLabels: true})
 			}
 		}
 		if ix[3] == 3 {
@@ -500,6 +502,28 @@ func extraDomain(name string, maxOrd, maxRep, nph int) *Domain {
 		return AdoptDomain()
 	case "history":
 		return HistoryDomain()
+	case "pods-settled":
+		// the pods domain restricted to pods nobody is waiting for: per ordinal absent or Running, Ready, not terminating at
+		// one of the three revisions.  Whatever a reconcile leaves undone here stays undone (no event is outstanding).
+		full := PodsDomain(maxOrd, maxRep, nph, false)
+		nOrd := maxOrd + 1
+		dims := append([]int{}, full.Dims...)
+		for o := 0; o < nOrd; o++ {
+			dims[7+o] = 4
+		}
+		d := &Domain{Name: "pods-settled: " + full.Name, Dims: dims}
+		d.Make = func(ix []int) *Scenario {
+			jx := append([]int{}, ix...)
+			for o := 0; o < nOrd; o++ {
+				if ix[7+o] > 0 {
+					jx[7+o] = 1 + (ix[7+o] - 1) + 6*2 // phaseTab[2] = Running and Ready, not terminating, revision ix-1
+				}
+			}
+			sc := full.Make(jx)
+			sc.Dom = ix
+			return sc
+		}
+		return d
 	case "pods-dotted":
 		// the pods domain for a set whose name is a DNS subdomain with dots and a digit-only last label ("db.v1.2"): pod
 		// names, host names, the pod-name label and the claim names are derived from "<set>-<ordinal>" all the same
